@@ -248,16 +248,29 @@ def _r1_producer(ctx, R, p):
     stack_like = set()
     bad = []
     cnt = 0
+    # containers of single line numbers whose popped entries become region bounds (`[starts.pop(), i + 1]`)
+    scalar_stacks = set()
+    for st in ast.walk(loop):
+        if isinstance(st, ast.Call) and isinstance(st.func, ast.Attribute) and st.func.attr == "append" and st.args and isinstance(st.args[0], ast.List) and len(st.args[0].elts) == 2:
+            for x in st.args[0].elts:
+                if isinstance(x, ast.Call) and isinstance(x.func, ast.Attribute) and x.func.attr == "pop" and isinstance(x.func.value, ast.Name) and not x.args:
+                    scalar_stacks.add(x.func.value.id)
     for st in ast.walk(loop):
         vals = []
         if isinstance(st, ast.Call) and isinstance(st.func, ast.Attribute) and st.func.attr == "append" and isinstance(st.func.value, ast.Name) and st.args:
             a = st.args[0]
             if isinstance(a, ast.List) and len(a.elts) == 2 and "group" not in st.func.value.id:
-                vals = a.elts
+                # an entry popped from a stack of line numbers is as good as what was pushed there (checked below)
+                vals = [x for x in a.elts if not (isinstance(x, ast.Call) and isinstance(x.func, ast.Attribute) and x.func.attr == "pop" and isinstance(x.func.value, ast.Name) and x.func.value.id in scalar_stacks)]
+                cnt += len(a.elts) - len(vals)
                 stack_like.add(st.func.value.id)
+            elif st.func.value.id in scalar_stacks and isinstance(deref(ctx, f, a), (ast.BinOp, ast.Constant, ast.UnaryOp)):
+                vals = [deref(ctx, f, a)]
             elif st.func.value.id in [unparse(e) for e in ret.value.elts[1:3]] and isinstance(deref(ctx, f, a), (ast.BinOp, ast.Constant, ast.UnaryOp)):
                 vals = [deref(ctx, f, a)]
         elif isinstance(st, ast.Assign) and isinstance(st.targets[0], ast.Subscript) and isinstance(st.targets[0].value, ast.Subscript) and isinstance(st.targets[0].value.value, ast.Name) and st.targets[0].value.value.id in stack_like | {"pp_stack"}:
+            vals = [st.value]
+        elif isinstance(st, ast.Assign) and isinstance(st.targets[0], ast.Subscript) and isinstance(st.targets[0].value, ast.Name) and st.targets[0].value.id in scalar_stacks:
             vals = [st.value]
         for v in vals:
             cnt += 1
@@ -295,7 +308,8 @@ def _is_all_true(ctx, f, e, stack):
         return False
     tv = unparse(g.generators[0].target)
     c = g.elt
-    if not (isinstance(c, ast.Compare) and len(c.ops) == 1 and unparse(c.left) == f"{tv}[0]" and isinstance(c.comparators[0], (ast.Constant, ast.UnaryOp))):
+    # entries are `[start, end]` pairs or, equivalently, the bare start line
+    if not (isinstance(c, ast.Compare) and len(c.ops) == 1 and unparse(c.left) in (f"{tv}[0]", tv) and isinstance(c.comparators[0], (ast.Constant, ast.UnaryOp))):
         return False
     try:
         v = ast.literal_eval(c.comparators[0])
@@ -307,9 +321,25 @@ def _is_all_true(ctx, f, e, stack):
     return (e.func.id == "all" and not neg and true_arm) or (e.func.id == "any" and neg and false_arm)
 
 
+def _cond_stack(ctx, f):
+    """Name of the local stack of open conditionals: the container whose popped
+    entry is (part of) what is appended to the returned list of skipped regions."""
+    ret = next((r for r in f.node.body if isinstance(r, ast.Return) and isinstance(r.value, ast.Tuple)), None)
+    if ret is None or len(ret.value.elts) < 2:
+        return None
+    regions = unparse(ret.value.elts[1])
+    for c in calls_in(f.node):
+        if isinstance(c.func, ast.Attribute) and c.func.attr == "append" and unparse(c.func.value) == regions and c.args:
+            for x in ast.walk(c.args[0]):
+                if isinstance(x, ast.Call) and isinstance(x.func, ast.Attribute) and x.func.attr == "pop" and isinstance(x.func.value, ast.Name) and not x.args:
+                    return x.func.value.id
+    return None
+
+
 def r2(ctx, R):
     R.rule("C08.R2", "#define/#undef/#include take effect only when every open conditional is in its true arm", floor=4, confirmed=4)
     f = pp_func(ctx)
+    stack_name = _cond_stack(ctx, f) or "pp_stack"
     F = ctx.facts(f, interproc=False)
     ret = next(r for r in f.node.body if isinstance(r, ast.Return) and isinstance(r.value, ast.Tuple))
     table = unparse(ret.value.elts[3])
@@ -334,9 +364,9 @@ def r2(ctx, R):
         good = None
         for fl in flags:
             ds = reaching_defs(ctx, f, st, fl)
-            if ds and all(isinstance(d, ast.AST) and _is_all_true(ctx, f, d, "pp_stack") for d in ds):
+            if ds and all(isinstance(d, ast.AST) and _is_all_true(ctx, f, d, stack_name) for d in ds):
                 good = fl
-        inline = any(b[0] == "cond" and b[2] is True and b[1].startswith(("all(", "not any(")) and "pp_stack" in b[1] for b in fa)
+        inline = any(b[0] == "cond" and b[2] is True and b[1].startswith(("all(", "not any(")) and stack_name in b[1] for b in fa)
         k = f"{what}: {key(f, ctx.m.enclosing_stmt(st))[:70]}"
         if good or inline:
             R.ok("C08.R2", f.short, k, loc(f, st), f"under `{good or 'all(...)'}` = every open conditional in its true arm")
@@ -814,8 +844,11 @@ def r7(ctx, R):
     regions = unparse(ret.value.elts[1])
     stack = group = None
     for c in calls_in(f.node):
-        if isinstance(c.func, ast.Attribute) and c.func.attr == "append" and unparse(c.func.value) == regions and c.args and isinstance(c.args[0], ast.Call) and isinstance(c.args[0].func, ast.Attribute) and c.args[0].func.attr == "pop":
-            stack = unparse(c.args[0].func.value)
+        if isinstance(c.func, ast.Attribute) and c.func.attr == "append" and unparse(c.func.value) == regions and c.args:
+            # the closed region is the popped entry itself, or is built around it (`[stack.pop(), end]`)
+            for x in ast.walk(c.args[0]):
+                if isinstance(x, ast.Call) and isinstance(x.func, ast.Attribute) and x.func.attr == "pop" and isinstance(x.func.value, ast.Name) and not x.args:
+                    stack = x.func.value.id
     for c in calls_in(f.node):
         if isinstance(c.func, ast.Attribute) and c.func.attr == "append" and c.args and isinstance(c.args[0], ast.List) and c.args[0].elts and unparse(c.args[0].elts[0]) == f"len({stack})":
             group = unparse(c.func.value)
